@@ -121,11 +121,11 @@ def random_history(args):
                     ev = {'op': 'EnterCtx', 'm': m}
                     call = ('EnterCtx', [m])
             else:
-                kd = rnd.choice(['update', 'setitem', 'update0', 'updatebad', 'pop', 'popd', 'popitem', 'del'])
+                kd = rnd.choice(['update', 'setitem', 'update0', 'updatebad', 'pop', 'popd', 'popitem', 'del', 'updateall'])
                 key, v = rnd.choice(['k1', 'k2']), rnd.choice([1, 2])
                 if kd in ('update0', 'pop', 'popd', 'popitem', 'del'):
                     v = 1
-                if kd in ('update0', 'popitem'):
+                if kd in ('update0', 'popitem', 'updateall'):
                     key = 'k1'
                 ev = {'op': 'M_Call', 'kd': kd, 'key': key, 'v': v}
                 call = ('M_Call', [kd, key, v])
